@@ -25,6 +25,12 @@ type c04Loop struct {
 
 type c04Inner struct{ IV int }
 
+// a struct that embeds a pointer to itself: legal Go, Go resolves V at depth 0
+type C04SelfEmb struct {
+	*C04SelfEmb
+	V int
+}
+
 type C04Odd struct {
 	NoRes     func(...interface{})
 	NoRes1    func(int)
@@ -55,6 +61,9 @@ type C04Odd struct {
 	Bytes     []byte
 	Runes     []rune
 	Matrix    [][]int
+	Cyc       []interface{} // a slice that contains itself
+	CycMap    map[string]interface{}
+	SelfEmb   C04SelfEmb
 	*c04Inner // nil embedded pointer
 }
 
@@ -67,6 +76,7 @@ func (C04Odd) MPanic() int          { panic("method panics") }
 func (C04Odd) MIface() fmt.Stringer { return nil }
 
 var c04OddSources = []string{
+	`V`, `V + 1`, `C04SelfEmb`, `C04SelfEmb.V`, `A`, `A + 1`, `U`, `A in [1]`,
 	`NoRes("a", 1)`, `NoRes()`, `NoRes1(1)`, `TwoRes()`, `ErrRes(1)`, `ErrRes(1) + 1`, `ThreeRes()`, `VarInts(1, 2)`, `VarInts()`, `VarMixed("a")`, `VarMixed("a", 1, nil)`, `VarMixed()`, `VarMixed(1)`,
 	`FnFn(NilFn)`, `FnFn(RetFn())`, `RetFn()(1)`, `RetFn()`, `NilFn(1)`, `NilFn`, `Ch`, `Ch == nil`, `len(Ch)`, `Cx`, `Cx + 1`, `Cx == Cx`, `-Cx`, `Arr`, `Arr[0]`, `Arr[5]`, `Arr[1:2]`, `len(Arr)`, `ArrS[0] + "x"`, `1 in Arr`,
 	`map(Arr, {# + 1})`, `PP`, `PP == nil`, `PP + 1`, `PPP`, `PPP + "a"`, `len(PPP)`, `Rec`, `Rec == nil`, `Rec.X`, `Rec[0]`, `len(Rec)`, `Rec + 1`, `not Rec`, `Rec ? 1 : 2`, `Rec in [1]`, `[Rec]`, `Rec()`,
@@ -74,6 +84,7 @@ var c04OddSources = []string{
 	`IfKey[1]`, `IfKey["a"]`, `IfKey[nil]`, `StructKey`, `StructKey[1]`, `NilMap.a`, `NilMap["a"]`, `"a" in NilMap`, `len(NilMap)`, `Uptr + 1`, `U - 1`, `-U`, `Bytes[0]`, `Bytes + Bytes`, `Bytes == "a"`, `len(Bytes)`, `Runes[0] + 1`,
 	`Matrix[0][0]`, `Matrix[0][5]`, `map(Matrix, {len(#)})`, `filter(Matrix, {#[0] > 0})`, `IV`, `c04Inner`, `c04Inner.IV`, `MNoRes()`, `MTwo()`, `MVar()`, `MVar(1, 2, 3)`, `MVar("a")`, `MPtr()`, `MErr()`, `MPanic()`, `MIface()`, `MIface().String()`,
 	`MIface()?.String()`, `MNoRes`, `MVar`, `all(Arr, {# > 0})`, `count(Bytes, {# > 0})`, `Arr == [0, 0, 0]`, `Arr in [Arr]`, `{"a": Ch}`, `[NilFn, Ch, Cx]`, `Ch ?: 1`, `Cx in 1..3`, `U in 1..3`, `Uptr in [1]`,
+	`Cyc == Cyc`, `Cyc != Cyc`, `Cyc in [Cyc]`, `[Cyc] == [Cyc]`, `Cyc[0] == Cyc`, `len(Cyc)`, `CycMap == CycMap`, `CycMap.self == CycMap`, `Cyc == Matrix`, `SelfEmb.V`, `SelfEmb.V + 1`, `SelfEmb == nil`,
 }
 
 func c04OddEnv(r *runner.Rng) interface{} {
@@ -92,11 +103,28 @@ func c04OddEnv(r *runner.Rng) interface{} {
 		Ch: make(chan int, 1), Cx: complex(1, 2), PP: &p, PPP: &pps, Loop: lp, IntKey: map[int]string{1: "a"}, IfKey: map[interface{}]int{1: 1, "a": 2}, StructKey: map[c04Inner]int{{1}: 1},
 		Bytes: []byte("ab"), Runes: []rune("ab"), Matrix: [][]int{{1}, {}},
 	}
-	switch r.Intn(3) {
+	e.Cyc = []interface{}{1, nil}
+	e.Cyc[1] = e.Cyc
+	e.CycMap = map[string]interface{}{"k": 1}
+	e.CycMap["self"] = e.CycMap
+	switch r.Intn(6) {
 	case 0:
 		return e
 	case 1:
 		return &e
+	case 2:
+		// a struct embedding a pointer to its own type, by value and by pointer
+		if r.Bool() {
+			return C04SelfEmb{V: 1}
+		}
+		return &C04SelfEmb{V: 1}
+	case 3:
+		// a pointer to a map
+		m := map[string]interface{}{"A": 1, "U": uint(2), "Cx": complex(1, 2), "NilFn": e.NilFn, "Arr": e.Arr, "Cyc": e.Cyc}
+		return &m
+	case 4:
+		m := map[string]int{"A": 1, "U": 2}
+		return &m
 	default:
 		m := map[string]interface{}{}
 		v := reflect.ValueOf(e)
